@@ -50,7 +50,18 @@ META["C04"] = {
     "technique": "explicit-state BFS over operation sequences + exhaustive interleaving enumeration under a controlled scheduler, on the implementation",
 }
 
-ENGINE_OF = {"C09": "sched", "C08": "seq", "C02": "seq+sched", "C04": "seq+sched"}
+META["C01"] = {
+    "level": "model_checking",
+    "rule": "sequential: BFS over all histories (to the depth bound, <=3 entry slots, pool-miss deviations <=1) of Entry(resource outbound r1 / inbound r2, batch 1/3, args none/[A]/[B]/[unhashable value that makes the hotspot rule check panic], custom-chain flags that make a prepare / rule-check slot panic), TraceError(slot) on live and exited entries, Exit(slot), Exit(slot, WithError), repeated Exit, clock advances 7/600 ms, on the global chain and on a custom chain with a recording statistic slot; after EVERY operation: gauge of every node = ledger in-flight, all five window sums of r1, r2 and the inbound node = ledger, every live entry's error / args / resource / batch are its own, recording slot heard exactly the expected callbacks; concurrent: all schedules with <=1 (quick) / <=2 (thorough) preemptions of 2 threads Entry->[TraceError]->Exit at atomic-access granularity; distinct outcome = chain + answer vector",
+    "assumptions": [A_CLOCK, A_OVERLAY, A_SHIM, "sync.Pool is modelled as a LIFO free list; a pool miss (GC, other P) is an explicit environment answer with a deviation budget of 1", "panics inside user statistic slots / exit handlers are outside the domain (property text)", "an entry during whose admission an internal panic was contained carries that panic as its error (implementation convention, mirrored)"],
+    "budget_quick": 90,
+    "budget_thorough": 1200,
+    "text": "Explicit-state exploration of entry lifecycles through the real api.Entry / TraceError / Exit against a ledger and the window reference, including pool reuse between different entries, late and repeated calls and contained panics; plus preemption-bounded interleavings of two complete entry lifecycles.",
+    "level_note": "Bounded depth (5 quick / 7 thorough), three entry slots, two resources; concurrent clause limited to 2 threads and 1-2 preemptions.",
+    "technique": "explicit-state BFS over operation sequences with ledger/reference comparison + preemption-bounded schedule enumeration, on the implementation",
+}
+
+ENGINE_OF = {"C09": "sched", "C08": "seq", "C02": "seq+sched", "C04": "seq+sched", "C01": "seq+sched"}
 
 # properties not claimed, with the reason (kept current)
 NOT_APPLICABLE = {}
